@@ -89,6 +89,7 @@ class FrameLedger:
 
     def server_reset(self, stream_id: int) -> None:
         self.open.pop(stream_id, None)
+        self.refused.add(stream_id)  # frames the client sent before it has read the RST_STREAM are legitimate
 
     # limits in force ------------------------------------------------------------
     def stream_limit(self) -> int:
